@@ -14,6 +14,8 @@ pub struct Spec {
     pub s: Vec<u32>,
     pub lo: u8,
     pub co: u8,
+    /// render the source through a tilemap layer (one 1x1 tile per source pixel) instead of an image layer
+    pub via_tilemap: bool,
 }
 
 pub fn sprite(mode: u16, sp: &Spec) -> Vec<u8> {
@@ -27,7 +29,20 @@ pub fn sprite(mode: u16, sp: &Spec) -> Vec<u8> {
     let bb: Vec<u8> = sp.b.iter().flat_map(|p| p.to_le_bytes()).collect();
     let sb: Vec<u8> = sp.s.iter().flat_map(|p| p.to_le_bytes()).collect();
     f.frames[0].push(gen::raw_cel(0, 0, 0, 255, sp.w, sp.h, bb));
-    f.frames[0].push(gen::raw_cel(1, 0, 0, sp.co, sp.w, sp.h, sb));
+    if sp.via_tilemap {
+        // tile i is the 1x1 tile holding source pixel i; the map lists the tiles in order
+        let n = sp.s.len() as u32;
+        let mut ts = gen::tileset(7, n, 1, 1, sb, "sources");
+        ts.z = Zlib::Level(1);
+        f.frames[0].chunks.insert(0, Chunk::new(Body::Tileset(ts)));
+        if let Body::Layer(l) = &mut f.frames[0].chunks[2].body {
+            l.ty = 2;
+            l.tileset = 7;
+        }
+        f.frames[0].push(gen::tm_cel(1, 0, 0, sp.co, sp.w, sp.h, (0..n).collect()));
+    } else {
+        f.frames[0].push(gen::raw_cel(1, 0, 0, sp.co, sp.w, sp.h, sb));
+    }
     f.encode()
 }
 
@@ -174,7 +189,7 @@ pub fn families(tier: Tier) -> Vec<Family> {
             modes: all.clone(),
             build: Box::new(move |i| {
                 let (b, s) = channel_grid(p[i].0, p[i].1);
-                Spec { w: 256, h: 256, b, s, lo: 255, co: 255 }
+                Spec { w: 256, h: 256, b, s, lo: 255, co: 255, via_tilemap: false }
             }),
         });
     }
@@ -189,7 +204,7 @@ pub fn families(tier: Tier) -> Vec<Family> {
             modes: all.clone(),
             build: Box::new(move |i| {
                 let (b, s) = small_grid();
-                Spec { w: 72, h: 72, b, s, lo: ops[i].0, co: ops[i].1 }
+                Spec { w: 72, h: 72, b, s, lo: ops[i].0, co: ops[i].1, via_tilemap: false }
             }),
         });
     }
@@ -204,7 +219,7 @@ pub fn families(tier: Tier) -> Vec<Family> {
                 let al = [(255u8, 255u8), (128, 255), (255, 128), (1, 1)];
                 let (b, s) = lattice_grid(&[0, 1, 127, 128, 255], &al[i..i + 1]);
                 let (w, h) = shape(b.len());
-                Spec { w, h, b, s, lo: 255, co: 255 }
+                Spec { w, h, b, s, lo: 255, co: 255, via_tilemap: false }
             }),
         });
     }
@@ -219,7 +234,22 @@ pub fn families(tier: Tier) -> Vec<Family> {
                 let al = [(255u8, 255u8), (128, 200), (200, 77)];
                 let (b, s) = lattice_grid(&[0, 36, 73, 109, 146, 182, 219, 255], &al[i..i + 1]);
                 let (w, h) = shape(b.len());
-                Spec { w, h, b, s, lo: 255, co: [255u8, 254, 100][i] }
+                Spec { w, h, b, s, lo: 255, co: [255u8, 254, 100][i], via_tilemap: false }
+            }),
+        });
+    }
+    // Q5: the same small grid rendered through the tilemap route (tileset of 1x1 tiles)
+    {
+        let ops: Vec<(u8, u8)> = vec![(255, 255), (255, 128), (128, 255), (200, 77), (1, 255), (255, 0), (254, 254)];
+        let n = ops.len();
+        v.push(Family {
+            name: "Q5-tilemap-route",
+            what: "the (Bc,Sc) in A12^2 x (Ba,Sa) in A6^2 grid with the source layer being a TILEMAP layer (one 1x1 tile per source pixel) x 7 opacity pairs: the tilemap rendering route must blend exactly like the image route".into(),
+            n,
+            modes: all.clone(),
+            build: Box::new(move |i| {
+                let (b, s) = small_grid();
+                Spec { w: 72, h: 72, b, s, lo: ops[i].0, co: ops[i].1, via_tilemap: true }
             }),
         });
     }
@@ -232,7 +262,7 @@ pub fn families(tier: Tier) -> Vec<Family> {
             modes: separable.clone(),
             build: Box::new(move |i| {
                 let (b, s) = channel_grid((i >> 8) as u8, i as u8);
-                Spec { w: 256, h: 256, b, s, lo: 255, co: 255 }
+                Spec { w: 256, h: 256, b, s, lo: 255, co: 255, via_tilemap: false }
             }),
         });
         // T2: layer opacity sweep x Q1
@@ -248,9 +278,9 @@ pub fn families(tier: Tier) -> Vec<Family> {
                     let (ba, sa) = p[i % p.len()];
                     let (b, s) = channel_grid(ba, sa);
                     if o % 8 == 3 {
-                        Spec { w: 256, h: 256, b, s, lo: 255, co: o }
+                        Spec { w: 256, h: 256, b, s, lo: 255, co: o, via_tilemap: false }
                     } else {
-                        Spec { w: 256, h: 256, b, s, lo: o, co: 255 }
+                        Spec { w: 256, h: 256, b, s, lo: o, co: 255, via_tilemap: false }
                     }
                 }),
             });
@@ -273,7 +303,7 @@ pub fn families(tier: Tier) -> Vec<Family> {
                         s.push(px(((sc >> 8) * 17) as u8, (((sc >> 4) & 15) * 17) as u8, ((sc & 15) * 17) as u8, sa));
                     }
                 }
-                Spec { w: 256, h: 256, b, s, lo: 255, co: 255 }
+                Spec { w: 256, h: 256, b, s, lo: 255, co: 255, via_tilemap: false }
             }),
         });
         v.push(Family {
@@ -301,7 +331,7 @@ pub fn families(tier: Tier) -> Vec<Family> {
                         }
                     }
                 }
-                Spec { w: 256, h: 256, b, s, lo: 255, co: 255 }
+                Spec { w: 256, h: 256, b, s, lo: 255, co: 255, via_tilemap: false }
             }),
         });
         // T4: all 65,536 opacity pairs for Normal and Multiply
@@ -312,7 +342,7 @@ pub fn families(tier: Tier) -> Vec<Family> {
             modes: vec![0, 1],
             build: Box::new(move |i| {
                 let (b, s) = small_grid();
-                Spec { w: 72, h: 72, b, s, lo: (i >> 8) as u8, co: i as u8 }
+                Spec { w: 72, h: 72, b, s, lo: (i >> 8) as u8, co: i as u8, via_tilemap: false }
             }),
         });
     }
